@@ -79,6 +79,44 @@ def check_value_string(chk):
     return regex_name
 
 
+NUMBER_SAMPLES = [0, 5, -3, 10 ** 20, 123456789012345678901234567890, 0.0, 5.0, -3.0, 10.0, 100.0, 1200.0, 1.5, -2.25, 0.1, 0.5, 100.5, 1000000.0, 123456789.125, 1e15, 1e16, 1e20, 1.5e20,
+                  1.25e+30, 1e21, 1e22, 1e100, 1.7976931348623157e308, 1e-5, 1e-7, 1.5e-7, 2.25e-300, 1.5e-10, 5e-324, 2.5e-10, 1.05, 10.01, 1e+300, 3e+50, 7.0e-20]
+
+
+def check_value_string_sim(chk):
+    """C13.D/C13.C by evaluation: value_string applied to concrete sample numbers (host str()/repr() of a float is the shortest round-tripping text: the
+    assumed CPython base); the printed text must denote the same number and an integral number below 1e15 must print as its integer digits"""
+    from ..absint import Interp, RaiseSig
+    vmod = chk.repo.module('value')
+    func = vmod.func('value_string', 'C13.D')
+    it = Interp(vmod, 'C13.D')
+    it.repo = chk.repo
+    n, probs = 0, []
+    for v in NUMBER_SAMPLES + [True, False]:
+        it.depth = 0
+        n += 1
+        try:
+            got = it.call_function(func, [v], func)
+        except RaiseSig as sig:
+            probs.append((v, f'raises {sig.cls}'))
+            continue
+        if isinstance(v, bool):
+            if got != ('true' if v else 'false'):
+                probs.append((v, f'prints {got!r}; a boolean prints as true / false'))
+            continue
+        if not isinstance(got, str):
+            raise Unrecognised('C13.D', f'value_string({v!r}) evaluates to the non-text value {got!r}', vmod.rel)
+        try:
+            back = float(got) if isinstance(v, float) else int(got)
+        except ValueError:
+            back = None
+        if back is None or back != v:
+            probs.append((v, f'prints {got!r}, which {"is not a number" if back is None else f"denotes {back!r}"}: the text no longer converts back to the number'))
+        elif float(v).is_integer() and abs(v) < 1e15 and got != str(int(v)):
+            probs.append((v, f'prints {got!r}; an integral number prints as its integer digits {str(int(v))!r}'))
+    return n, probs
+
+
 def check_cleanup(chk, regex_name):
     vmod = chk.repo.module('value')
     rg = vmod.const(regex_name, 'C13.C')
@@ -185,8 +223,45 @@ def check_parsers(chk):
                         r = x.args[0] != 'nan'         # x != x is the NaN idiom
                         return r if isinstance(op, ast.Eq) else not r
             return super().compare(op, a, b, node)
+    # concrete texts first (the host float() is exact on them): printed forms convert to their number, non-finite / overflowing / malformed text gives null
+    cit = Interp(vmod, 'C13.N')
+    cit.repo = chk.repo
+    texts = [('1', 1.0), ('-2.5', -2.5), ('100', 100.0), ('0.1', 0.1), ('1e+20', 1e20), ('1.5e-07', 1.5e-7), ('2.25e-300', 2.25e-300), ('1.7976931348623157e+308', 1.7976931348623157e308),
+             ('nan', None), ('NaN', None), ('-nan', None), ('inf', None), ('-inf', None), ('Infinity', None), ('+infinity', None), ('1e309', None), ('-2.5E+400', None),
+             ('9' * 320, None), ('abc', None), ('', None), ('1,5', None), ('--1', None), ('1e', None)]
+    concrete_ok = True
+    try:
+        for text, want in texts:
+            cit.depth = 0
+            try:
+                got = ('value', cit.call_function(func, [text], func))
+            except RaiseSig as sig:
+                got = ('raise', sig.cls)
+            if got == ('value', want) and (want is None or isinstance(got[1], float)):
+                continue
+            concrete_ok = False
+            chk.bad('C13.N', vmod, 'value_parse_number', f'value_parse_number({text[:30]!r}) -> {got[1]!r}' if got[0] == 'value' else f'value_parse_number({text[:30]!r}) raises {got[1]}',
+                    f'evaluation on concrete text: value_parse_number({text[:30]!r}) ' + (f'raises {got[1]}' if got[0] == 'raise' else f'returns {got[1]!r}') +
+                    f'; it must return {"the number " + repr(want) if want is not None else "null (non-finite numbers are not BareScript numbers; malformed text is null)"}', node=func)
+            break
+        else:
+            chk.ok('C13.N', f'value_parse_number evaluated on {len(texts)} concrete texts: printed number forms convert to the number; NaN / infinity spellings, text beyond the double '
+                   f'range and malformed text give null', count=len(texts))
+    except Unrecognised as exc:
+        concrete_ok = None
+        chk.note(f'C13.N: value_parse_number on concrete text not evaluated ({exc.what}); the four-outcome oracle below decides')
     it = NumInterp(vmod, 'C13.N')
     it.repo = chk.repo
+    if concrete_ok is not None:
+        # the evaluation on concrete text decided (either way): the four-outcome oracle is a coarser model of the same function and only adds OK instances
+        chk.advisory('C13.N', _parse_oracle_runs, chk, it, func, vmod)
+    else:
+        _parse_oracle_runs(chk, it, func, vmod)
+    _parse_integer_runs(chk, vmod, Interp, Sym, RaiseSig)
+
+
+def _parse_oracle_runs(chk, it, func, vmod):
+    from ..absint import Sym, RaiseSig
     for outcome, want in (('finite', Sym('num', 'finite')), ('nan', None), ('inf', None), ('ValueError', None)):
         it.outcome = outcome
         it.depth = 0
@@ -204,6 +279,9 @@ def check_parsers(chk):
             chk.bad('C13.N', vmod, 'value_parse_number', f'{outcome}: {got}',
                     f'value_parse_number given {desc} ' + (f'raises {got[1]}' if got[0] == 'raise' else f'returns {got[1]!r}') + f'; it must return {"the number" if want is not None else "null"} '
                     '(non-finite numbers are not BareScript numbers; malformed text is null)', node=func)
+
+
+def _parse_integer_runs(chk, vmod, Interp, Sym, RaiseSig):
     func = vmod.func('value_parse_integer', 'C13.N')
 
     class IntInterp(Interp):
@@ -248,9 +326,31 @@ def run(chk):
     chk.rule('C13.L', 'printed non-negative numbers are literals of the language (automata inclusion)', floor=1)
     chk.rule('C13.N', 'parsers return null for non-finite / non-numeric text', floor=5)
     chk.assumptions += ['CPython: repr(float) is the shortest string that float() maps back to the same double; its forms are digits.digits or d[.d+]e[+-]dd+']
-    name = chk.guard('C13.D', check_value_string, chk)
-    if name:
-        chk.guard('C13.C', check_cleanup, chk, name)
+    # primary: evaluation of value_string on concrete numbers; the shape rules below explain a deviation and are advisory once the evaluation decided
+    sim = None
+    try:
+        sim = check_value_string_sim(chk)
+    except Unrecognised as exc:
+        chk.unrec('C13.D', f'value_string on concrete numbers: {exc.what}', exc.where)
+    vmod = chk.repo.module('value')
+    if sim is not None and sim[1]:
+        v, msg = sim[1][0]
+        rule = 'C13.C' if isinstance(v, float) else 'C13.D'
+        chk.bad(rule, vmod, 'value_string', f'value_string({v!r}) {msg[:80]}', f'evaluation of value_string on {sim[0]} sample numbers: value_string({v!r}) {msg} '
+                f'({len(sim[1])} samples deviate: {", ".join(repr(x[0]) for x in sim[1][:6])})', node=vmod.funcs.get('value_string'))
+    elif sim is not None:
+        chk.ok('C13.D', f'value_string evaluated on {sim[0]} sample numbers (ints, integral and fractional floats, exponent forms with and without fraction, booleans): '
+               f'every text converts back to the number; integral numbers print as integer digits', count=sim[0])
+        chk.ok('C13.C', 'the float clean-up removes only an all-zero fraction at the end of the text on every sample (exponent forms 1e+20, 1.5e+20, 2.25e-300 untouched)')
+    name = None
+    if sim is not None and not sim[1]:
+        name = chk.advisory('C13.D', check_value_string, chk)
+        if name:
+            chk.advisory('C13.C', check_cleanup, chk, name)
+    else:
+        name = chk.guard('C13.D', check_value_string, chk)
+        if name:
+            chk.guard('C13.C', check_cleanup, chk, name)
     chk.guard('C13.D', check_sites, chk)
     chk.guard('C13.L', check_literal_language, chk)
     chk.guard('C13.N', check_parsers, chk)
